@@ -259,3 +259,24 @@ def gen_code(rng, allow_state=True):
     if rng.random() < 0.15:
         code += bytes([0x5F + rng.randrange(2, 33)]) + b"\x01"     # truncated trailing push
     return code
+
+
+def imm_for(b):
+    return bytes([0xAB] * (b - 0x5F)) if 0x60 <= b <= 0x7F else b""
+
+
+def opcode_position_codes():
+    """every opcode byte alone, first, middle and last in a block, and feeding a jump target and a
+    branch condition (operands supplied by pushes so that the expression is closed)"""
+    out = []
+    pushes = b"".join(b"\x60" + bytes([i + 1]) for i in range(8))        # 8 operands on the stack
+    for b in range(256):
+        ins = bytes([b]) + imm_for(b)
+        out.append(("alone", b, ins))
+        out.append(("first", b, ins + b"\x58\x50\x00"))
+        out.append(("middle", b, b"\x5b" + pushes + ins + b"\x58\x50\x00"))
+        out.append(("last", b, b"\x5b\x58\x50" + ins))
+        out.append(("target", b, b"\x5b" + pushes + ins + b"\x56" + b"\x5b\x00"))
+        out.append(("condition", b, b"\x5b" + pushes + ins + b"\x60\x00" + b"\x57" + b"\x5b\x00"))
+        out.append(("entry-stack", b, ins + b"\x56\x5b\x00"))
+    return out
